@@ -52,6 +52,8 @@ VERSION_SENSITIVE = {
     "vs_walrus_set": "v = 0\nprint(len({(v := 2), 0}), v, {(w := 1) for _ in range(1)}, w)\n",
     "vs_walrus_call_args": "def f(a, b=0):\n    return a + b\nprint(f((y := 3)), f(1, b=(z := 2)), y, z)\n",
     "vs_walrus_comp": "print([(q := e * 2) for e in range(3)], q, [e for e in range(4) if (r := e) % 2], r)\n",
+    "vs_walrus_genexp_sole_argument": "data = [3, 1, 2]\nprint(sum((seen := v) for v in data), seen, max((w := v * 2) for v in data if (u := v) > 1), w, u, list((z := v) for v in data), z, sorted(((q := v), -v) for v in data), q)\n",
+    "vs_walrus_everywhere": "d = {}\nl = [0, 1, 2, 3]\nf = lambda a, b=0: (a, b)\nprint((a := 1), f((b := 2)), f(1, b=(c := 3)), [(e := 4)], ((g := 5),), {'k': (h := 6)}, {(i := 7): 1}, l[(j := 1):(k := 3)], l[(m := 2)], f'{(n := 8)}', (o := 9) if (p := 1) else (r := 0), (lambda: (s := 10))(), not (t := 0), -(u := 11), (v := 12) + (w := 13), (x := 1) < (y := 2) < (z := 3))\nprint(a, b, c, e, g, h, i, j, k, m, n, o, p, t, u, v, w, x, y, z)\n",
     "vs_star_index": "d = {(0, 1): 7}\np = (0,)\nprint(d[(*p, 1)])\n",
     "vs_star_return_tuple": "def f(a):\n    return (*a, 1)\nprint(f([3]), [*range(2), *'ab'], {**{'k': 1}, 'j': 2})\n",
     "vs_posonly": "def f(a, b=2, /, c=3, *, d=4):\n    return (a, b, c, d)\ng = lambda x, y=1, /, z=2: (x, y, z)\nprint(f(1), f(1, 5, d=0), g(0), g(1, 2, z=3))\n",
@@ -64,6 +66,14 @@ VERSION_SENSITIVE = {
     "vs_eq_specifier": "x = 3\nprint(f'{x=}', f'{x + 1 = }', f'{x=!r:>4}')\n",
     "vs_bytes_and_numbers": "print(b'a\\x00b', 1e309, -1e309 < 0, 1_000, 0x1f, 1j * 1j, 10 ** 30)\n",
 }
+
+VERSION_SENSITIVE["vs_long_elif_chain"] = (
+    "x = 148\nif x == 0:\n    print(0)\n" + "".join("elif x == %d:\n    print(%d)\n" % (i, i) for i in range(1, 150))
+    + "else:\n    print('none')\n")
+VERSION_SENSITIVE["vs_long_flat_block"] = "t = 0\n" + "".join("t += %d\n" % i for i in range(400)) + "print(t)\n"
+VERSION_SENSITIVE["vs_long_boolean_chains"] = (
+    "x = 5\nprint(" + " and ".join("x > %d" % (i % 5) for i in range(120)) + ", " + " or ".join("x < %d" % (i % 5) for i in range(120))
+    + ", " + " + ".join("x" for i in range(150)) + ", " + " if 0 else ".join(str(i) for i in range(80)) + ")\n")
 
 # programs for histories (C10): long strings in two quote contexts, a long script with stacked
 # decorators (caches keyed by size), many helper names in one output
